@@ -173,6 +173,7 @@ static _Bool scan_all_scan(struct scan_all* self, epoch_t epoch);
 static _Bool scan_n_scan(struct scan_n* self, epoch_t epoch);
 static void scan_all_reset(struct scan_all* self);
 static void scan_n_reset(struct scan_n* self);
+struct tcb* trk; _Bool trk_prevalid;                       /* an arbitrary entry of the thread list */
 _Bool in_scan, scan_done, scan_ret; epoch_t scan_arg; unsigned n_scan, n_scan_reset; uint64_t scan_end_clk;
 static _Bool scan_wrap(scan_t* s, epoch_t e) {
   in_scan = 1; scan_arg = e; n_scan++;
@@ -184,7 +185,7 @@ static _Bool scan_wrap(scan_t* s, epoch_t e) {
   in_scan = 0; scan_done = 1; scan_ret = r; scan_end_clk = xv_clock; return r;
 }
 static void scan_reset_wrap(scan_t* s) {
-  n_scan_reset++;
+  n_scan_reset++; trk_prevalid = 0;      /* reset(): the validated prefix is empty again */
 #if XV_SCAN == 0
   scan_all_reset(s);
 #else
@@ -211,9 +212,18 @@ static void td_add_retired_node(struct td* self, chain_t p);
 static void td_reclaim_orphans(struct td* self, epoch_t epoch);
 static struct rnodes td_adopt_orphans(struct td* self, epoch_t epoch);
 
+static void stub_update_local_epoch(struct td* self, epoch_t new_epoch);
+static epoch_t stub_update_global_epoch(struct td* self, epoch_t curr_epoch, epoch_t new_epoch);
+#ifdef XV_STUB_UPDATE
+#define CALL_update_local_epoch stub_update_local_epoch
+#define CALL_update_global_epoch stub_update_global_epoch
+#else
+#define CALL_update_local_epoch td_update_local_epoch
+#define CALL_update_global_epoch td_update_global_epoch
+#endif
 /* ---------------- monitors ---------------- */
+unsigned g_rt, le_rem, ge_rem, ge_acq_rem, ge_first_rem;   /* ghost remainders modulo number_epochs, see harness_td.h */
 mptr* mon_src; unsigned mon_src_loads; mptr mon_src_last; int mon_src_last_order; uint64_t mon_src_last_clk;
-struct tcb* trk; _Bool trk_prevalid;                       /* an arbitrary entry of the thread list */
 _Bool trk_flag_seen, trk_flag_val, trk_ep_seen; epoch_t trk_ep_val; uint64_t last_scan_load_clk;
 unsigned n_flag_true, n_flag_false; uint64_t flag_true_clk, flag_false_clk; int flag_true_order, flag_false_order;
 unsigned n_sc_fence, n_acq_fence; uint64_t sc_fence_clk, acq_fence_clk;
@@ -222,14 +232,17 @@ unsigned n_le_store; epoch_t le_store_val; unsigned n_other_store, n_ge_store;
 unsigned n_cas; _Bool cas_ok; epoch_t cas_exp, cas_des; int cas_order; uint64_t cas_clk; chain_t cas_deleted_before;
 _Bool expect_scan;                                         /* this harness runs the scan: a CAS must be justified by it */
 _Bool adv_bad_delta, adv_no_scan, adv_trk_unchecked, adv_bad_sync;
+#include "lowered.h"
+_Static_assert(number_epochs >= 2 && number_epochs <= XV_MAXNE, "array shape XV_MAXNE too small for number_epochs");
+#define NE number_epochs
 static _Bool trk_ok(epoch_t e) {
   return trk_prevalid || (trk_flag_seen && (!trk_flag_val || (trk_ep_seen && trk_ep_val == e)));
 }
 static void mon_load(void* a, uint64_t v, int o) {
   if (mon_src && a == (void*)mon_src) { mon_src_loads++; mon_src_last = (mptr)v; mon_src_last_order = o; mon_src_last_clk = xv_clock; }
   if (a == (void*)&global_epoch) {
-    if (n_ge_load == 0) { ge_first_clk = xv_clock; ge_first_order = o; ge_first_val = v; }
-    if (XV_IS_ACQUIRE(o) && !ge_acq_seen) { ge_acq_seen = 1; ge_acq_clk = xv_clock; ge_acq_val = v; }
+    if (n_ge_load == 0) { ge_first_clk = xv_clock; ge_first_order = o; ge_first_val = v; ge_first_rem = ge_rem; }
+    if (XV_IS_ACQUIRE(o) && !ge_acq_seen) { ge_acq_seen = 1; ge_acq_clk = xv_clock; ge_acq_val = v; ge_acq_rem = ge_rem; }
     n_ge_load++;
   }
   if (in_scan) {
@@ -256,6 +269,7 @@ static void mon_cas(void* a, uint64_t e, uint64_t d, _Bool ok, int o) {
       if (!(n_acq_fence >= 1 && acq_fence_clk > last_scan_load_clk)) adv_bad_sync = 1;
     }
     if (!XV_IS_RELEASE(o)) adv_bad_sync = 1;
+    if (ok) ge_rem = (ge_rem + 1) % (unsigned)number_epochs;     /* only meaningful for d == e + 1, which adv_bad_delta checks */
   } else n_other_store++;
 }
 static void mon_fence(int o) {
@@ -263,8 +277,5 @@ static void mon_fence(int o) {
   if (XV_IS_ACQUIRE(o)) { n_acq_fence++; acq_fence_clk = xv_clock; }
 }
 
-#include "lowered.h"
-_Static_assert(number_epochs >= 2 && number_epochs <= XV_MAXNE, "array shape XV_MAXNE too small for number_epochs");
-#define NE number_epochs
 #include "harness_guard.h"
 #include "harness_td.h"
